@@ -66,6 +66,13 @@ class Flags:
         return self.c_contiguous or self.f_contiguous
 
 
+def _prod(shape):
+    r = 1
+    for x in shape:
+        r *= int(x)
+    return r
+
+
 class SymInterp(Interp):
     def __init__(self, prog, **kw):
         super().__init__(prog, **kw)
@@ -707,6 +714,15 @@ class SymInterp(Interp):
                 I.generic_notes.append("np.unique groups exactly equal symbolic entries, in order of first occurrence")
                 return out[0] if len(out) == 1 else tuple(out)
             return unique
+        if name == "indices":
+            def indices(dimensions, dtype=None, sparse=False):
+                if sparse is not False:
+                    raise AnalysisAbort("np.indices(sparse=True)")
+                shape = tuple(int(self.idx(x)) for x in dimensions)
+                grid = SArr(shape, [rat(0)] * _prod(shape))
+                idxs = list(grid.indices())
+                return SArr((len(shape),) + shape, [rat(i[k]) for k in range(len(shape)) for i in idxs], dtype="int")
+            return indices
         if name == "nonzero":
             def nonzero(a):
                 a = S.asarr(a)
@@ -746,8 +762,27 @@ class SymInterp(Interp):
             return lambda *a: SArr.from_nested([int(self.idx(x)) for x in range(*[int(self.idx(v)) for v in a])])
         if name == "isnan":
             return lambda a: S.elementwise(lambda x: rat(1 if (isinstance(x, Rat) and "nan" in x.symbols()) else 0), a)
+        if name == "nan_to_num":
+            def nan_to_num(a, copy=True, nan=0.0, posinf=None, neginf=None):
+                # NaN -> nan (0), +inf -> posinf (the largest finite float), -inf -> neginf; every other entry unchanged
+                def one(x):
+                    if isinstance(x, Rat) and "nan" in x.symbols():
+                        return rat(nan)
+                    if isinstance(x, Rat) and x == Rat.sym("inf"):
+                        return Rat.sym("float_max") if posinf is None else rat(posinf)
+                    if isinstance(x, Rat) and x == -Rat.sym("inf"):
+                        return -Rat.sym("float_max") if neginf is None else rat(neginf)
+                    if isinstance(x, Rat) and "inf" in x.symbols():
+                        raise AnalysisAbort("np.nan_to_num of an expression containing inf")
+                    return x
+                if not isinstance(a, SArr):
+                    return one(rat(a))
+                if copy is not True:
+                    raise AnalysisAbort("np.nan_to_num(copy=False)")
+                return S.elementwise(one, a)
+            return nan_to_num
         if name == "isfinite":
-            return lambda a: S.elementwise(lambda x: rat(1), a)
+            return lambda a: S.elementwise(lambda x: rat(0 if (isinstance(x, Rat) and ({"nan", "inf"} & set(x.symbols()))) else 1), a)
         if name == "reshape":
             return lambda a, shape, **k: I.sarr_attr(S.asarr(a), "reshape", None)(shape)
         if name in ("minimum", "maximum", "clip", "where"):
